@@ -475,10 +475,11 @@ def refresh_covers_banks(chk, prog, names):
     want = {"Sinclair48K": {0}, "Sinclair128K": {5, 7}}
     key = "T-PAIR/ZXController::refresh_memory_dependent_devices"
     for m in names.machine_variants():
-        w = Walker(prog)
+        w = Walker(prog, max_steps=4000000)
         w.opaque_paths.add(UPDATE)
         w.opaque_paths.add(RPD)
         w.max_branches = 14
+        w.max_block_visits = 20000     # a loop over a page prefix of known length (6912 screen bytes) is run to its end
 
         def hook(w_, st, path, a, d, wh):
             if path == UPDATE:
@@ -521,8 +522,15 @@ def refresh_covers_banks(chk, prog, names):
                       "%s: the refresh routine re-reads RAM pages %s; the screen of this machine shows pages %s — a page that is not refreshed keeps a stale picture after a snapshot load or poke" % (
                           m, sorted(x if x is not None else "<runtime value>" for x in got) if None not in got else ["<runtime value>"], sorted(want.get(m))))
             chk.check(order_ok, key + "/%s/bytes" % m, "%s: refresh does not feed update(i, bank, page[bank][i]) for consecutive i from 0" % m)
+            # a loop that ran to its end must have covered the bitmap and the attributes (0x1B00 bytes of the page)
+            # (only where the loop bound is known: with an opaque page the walk leaves the loop on the hypothesis that
+            # the page ends there, which the path condition then says)
+            hyp = any(isinstance(c[1], T) and any("ram_page_data" in x and "len" in x for x in tm.syms(c[1])) for c in r.pc if c[0] in ("eq", "ne"))
+            short = [] if hyp else [h for h, n_ in nxt.items() if n_ < 0x1B00]
+            chk.check(not short, key + "/%s/length" % m, "%s: refresh stops after %s bytes of a screen page; bitmap and attributes take 0x1B00" % (
+                m, [nxt[h] for h in short]))
         chk.count("refresh-paths", len(rets))
-    chk.floor("refresh-paths", 4)
+    chk.floor("refresh-paths", 2)
 
 
 def beam_relative(chk, prog, names):
